@@ -26,6 +26,7 @@ fn streams() -> Vec<Stream> {
         Stream { name: "send-all", count: (6_000, 120_000), exhaustive: false, run: send_all },
         Stream { name: "send-all-large", count: (160, 1_500), exhaustive: false, run: send_all_large },
         Stream { name: "send-all-squeezed", count: (1_500, 40_000), exhaustive: false, run: squeezed },
+        Stream { name: "send-all-boundary-tuned", count: (3_000, 80_000), exhaustive: false, run: boundary_tuned },
     ]
 }
 
@@ -34,6 +35,41 @@ thread_local! {
     static OVERRIDE: std::cell::Cell<(Option<u64>, Option<u64>)> = std::cell::Cell::new((None, None));
     /// what the last case measured: (largest really witnessed transaction, largest output value), in bytes
     static MEASURED: std::cell::Cell<(u64, u64)> = std::cell::Cell::new((0, 0));
+    /// lovelace to take from the first pure-ADA UTxO of the next case that can spare it
+    static TUNE: std::cell::Cell<i128> = std::cell::Cell::new(0);
+    /// coin of the last output of the last transaction the last case returned
+    static LAST_COIN: std::cell::Cell<i128> = std::cell::Cell::new(0);
+}
+
+/// the last output receives the leftover: a sweep is run once to see that output's coin, one pure-ADA UTxO is
+/// then made poorer so that the coin lands within a few hundred lovelace of a CBOR width boundary (2^16,
+/// 2^32) - where the size, and with it the fee and the minimum ADA, of the output changes - and the sweep is
+/// run again on the same random stream
+fn boundary_tuned(ctx: &mut Ctx, r: &mut Rng, i: u64) {
+    let mut r1 = r.clone();
+    LAST_COIN.with(|c| c.set(0));
+    TUNE.with(|t| t.set(0));
+    OVERRIDE.with(|o| o.set((None, None)));
+    send_all_small(ctx, &mut r1);
+    let c = LAST_COIN.with(|c| c.get());
+    let b: i128 = if r1.bool() { 1 << 32 } else { 1 << 16 };
+    let target = b + r1.below(700) as i128 - 350;
+    if c <= target {
+        ctx.bucket("tuned.last-coin-below-target");
+        return;
+    }
+    ctx.bucket(if b == 1 << 32 { "tuned.around-2^32" } else { "tuned.around-2^16" });
+    TUNE.with(|t| t.set(c - target));
+    send_all_small(ctx, r);
+    if TUNE.with(|t| t.get()) != 0 {
+        ctx.bucket("tuned.no-utxo-could-spare-it");
+    }
+    TUNE.with(|t| t.set(0));
+}
+
+fn send_all_small(ctx: &mut Ctx, r: &mut Rng) {
+    let n = 1 + r.usize(4);
+    case(ctx, r, n)
 }
 
 /// the size limits are only interesting at the limit: a UTxO set is swept once to learn the largest
@@ -115,6 +151,7 @@ fn case(ctx: &mut Ctx, r: &mut Rng, n: usize) {
     let mut utxos_csl = TransactionUnspentOutputs::new();
     let mut any_byron = false;
     let mut any_assets = false;
+    let mut any_hollow = false;
     for j in 0..n {
         let mut v = Val::coin(match s.r.below(8) {
             0 => 1_000_000 + s.r.below(500_000),
@@ -178,8 +215,33 @@ fn case(ctx: &mut Ctx, r: &mut Rng, n: usize) {
             let k = owner_keys[s.r.usize(owner_keys.len())];
             s.key_address(k)
         };
+        // the tuning of a pure-ADA UTxO (boundary-tuned stream)
+        if v.assets.is_empty() {
+            let d = TUNE.with(|t| t.get());
+            if d != 0 && v.coin - d >= 1_000_000 {
+                v.coin -= d;
+                TUNE.with(|t| t.set(0));
+            }
+        }
+        let pure = v.assets.is_empty();
         let i = s.new_utxo(&addr, v);
-        utxos_csl.add(&s.csl_utxo(i, None, None));
+        let mut u = s.csl_utxo(i, None, None);
+        if pure && s.r.below(6) == 0 {
+            // a pure-ADA value in the spelling decoded Mary-era outputs have: [coin, {}] or [coin, {policy: {}}]
+            let mut val = u.output().amount();
+            let mut ma = MultiAsset::new();
+            if s.r.bool() {
+                ma.insert(&ScriptHash::from_bytes(vec![0xd7; 28]).unwrap(), &Assets::new());
+            }
+            val.set_multiasset(&ma);
+            let out = TransactionOutput::new(&u.output().address(), &val);
+            u = TransactionUnspentOutput::new(&u.input(), &out);
+            any_hollow = true;
+        }
+        utxos_csl.add(&u);
+    }
+    if any_hollow {
+        ctx.bucket("utxo.pure-ada-with-hollow-multiasset");
     }
     let reps = if ctx.quick() { 4 } else { 12 };
     let mut results: BTreeSet<Vec<Vec<u8>>> = BTreeSet::new();
@@ -291,6 +353,7 @@ fn case(ctx: &mut Ctx, r: &mut Rng, n: usize) {
                 }
                 let len = (o.end - o.start) as u64;
                 let coin = ledger::output_value(o).map(|v| v.coin).unwrap_or(0) as u128;
+                LAST_COIN.with(|c| c.set(coin as i128));
                 if coin < ledger::min_utxo(params.coins_per_byte, len) {
                     ctx.violation("send-all/output-below-min-ada", det(json!({"tx": ti, "coin": coin.to_string(), "needed": ledger::min_utxo(params.coins_per_byte, len).to_string()})));
                 }
